@@ -224,6 +224,14 @@ func init() {
 		bufAppend(ex, c, add)
 		return c.ret(TupleV{term.Const(64, uint64(len(add))), IfaceV{}})
 	}
+	Stubs["(*bytes.Buffer).Reset"] = func(ex *Exec, c *CallCtx) []*callResult {
+		// b.buf = b.buf[:0]: the length drops to zero, the underlying storage is retained for later writes
+		p := c.Args[0].(PtrV)
+		sl := c.St.H.Load(p).(*StructV).F[0].(SliceV)
+		sl.Len = 0
+		c.St.H.Store(p.Sub(0), sl)
+		return c.ret(nil)
+	}
 	Stubs["(*bytes.Buffer).Bytes"] = func(ex *Exec, c *CallCtx) []*callResult {
 		return c.ret(c.St.H.Load(c.Args[0].(PtrV)).(*StructV).F[0])
 	}
